@@ -571,9 +571,9 @@ LEAN_KEYWORDS = {"end", "at", "from", "fun", "in", "do", "then", "else", "if", "
                  "where", "by", "def", "instance", "structure", "class", "variable", "local", "private", "mutual", "section",
                  "namespace", "import", "theorem", "example", "calc", "for", "return", "unless", "try", "catch", "finally", "mut",
                  "nomatch", "using", "prefix", "infix", "notation", "macro", "syntax", "deriving", "extends", "universe", "set_option"}
-LEAN_TYPE = {"fdtable": "Kernel.FdTable", "optnat": "Option Nat", "char": "Nat", "fd": "Nat", "fdset": "List Nat", "rsel": "ReadSel.RS", "evs": "List ReadSel.Ev", "penv": "PEnv", "kern": "K", "cptr": "Ptr", "argvp": "Nat", "optp": "Nat", "usize": "Nat", "int": "Int", "bool": "Bool", "string": "List Nat",
+LEAN_TYPE = {"cstrn": "Option (List Nat)", "fdtable": "Kernel.FdTable", "optnat": "Option Nat", "char": "Nat", "fd": "Nat", "fdset": "List Nat", "rsel": "ReadSel.RS", "evs": "List ReadSel.Ev", "penv": "PEnv", "kern": "K", "cptr": "Ptr", "argvp": "Nat", "optp": "Nat", "usize": "Nat", "int": "Int", "bool": "Bool", "string": "List Nat",
              "strlist": "List (List Nat)"}
-LEAN_DEFAULT = {"fdtable": "(fun _ => none)", "optnat": "none", "char": "0", "fd": "0", "fdset": "[]", "rsel": "⟨0, 0, [], [], false, false⟩", "evs": "[]", "penv": "[]", "kern": "⟨[], []⟩", "cptr": "Ptr.null", "argvp": "0", "optp": "0", "usize": "0", "int": "0", "bool": "false", "string": "[]", "strlist": "[]"}
+LEAN_DEFAULT = {"cstrn": "none", "fdtable": "(fun _ => none)", "optnat": "none", "char": "0", "fd": "0", "fdset": "[]", "rsel": "⟨0, 0, [], [], false, false⟩", "evs": "[]", "penv": "[]", "kern": "⟨[], []⟩", "cptr": "Ptr.null", "argvp": "0", "optp": "0", "usize": "0", "int": "0", "bool": "false", "string": "[]", "strlist": "[]"}
 
 
 def fld(name):
@@ -605,6 +605,7 @@ class Fn:
         self.members = set(members)
         self.proc = False                                      # the Process-object functions: syscalls, casts, errno
         self.sel = False                                       # read(buffer, length, streams): fd_set, select, ::read on a pipe
+        self.envfn = False                                     # getEnvironmentVariable: `const char*` = null | the value of a variable
         self.dmn = False                                       # daemonize: descriptor table ghost, ::open, dup2, fork, setsid, exit
         self.callees = {}                                      # member functions that may be called: C++ name -> (Lean name, parameter names)
         self.blocks = []                                       # Lean definitions in dependency order
@@ -613,7 +614,7 @@ class Fn:
 
     # -- helpers
     def rho(self):
-        return {"bool": "Bool", "int": "Int", "usize": "Nat", "cptr": "Ptr"}.get(self.ret, "Unit")
+        return {"bool": "Bool", "int": "Int", "usize": "Nat", "cptr": "Ptr", "string": "(List Nat)"}.get(self.ret, "Unit")
 
     def sig(self):
         return f"(E : Env) (f : Nat) (s : {self.rec})" if self.fuel else f"(E : Env) (s : {self.rec})"
@@ -639,6 +640,8 @@ class Fn:
             k = s[0]
             if k == "decl":
                 _, ty, name, _ = s
+                if self.envfn and ty == "cptr":
+                    ty = "cstrn"
                 if name in self.consts:
                     raise Refuse(f"{self.name}: local `{name}` shadows a parameter")
                 if self.vars.get(name, ty) != ty:
@@ -807,6 +810,17 @@ class Fn:
                     self.touch(m)
                 t = self.tmp()
                 return (f"match {lean} E s with\n| some (.ret {t} s) =>\n{ind(k('bool', t))}\n| _ => none")
+            if self.envfn and name == "getenv" and len(args) == 1:
+                def k1(t1, x1):
+                    if t1 != "cstring":
+                        raise Refuse(f"{self.name}: getenv({t1})")
+                    return k("cstrn", f"(envGet s.env {x1})")
+                return self.cexpr(args[0], k1)
+            if (self.envfn and name == "String" and len(args) == 2 and args[0][0] == "var" and self.vars.get(args[0][1]) == "cstrn"
+                    and args[1] == ("call", "String::length", [args[0]])):
+                t = self.tmp()
+                self.reads.add(args[0][1])
+                return (f"match s.{fld(args[0][1])} with\n| none => none\n| some {t} =>\n" + ind(k("string", t)))
             if self.dmn and name == "::open" and len(args) == 3 and args[0] == ("var", "logFile"):
                 ids = set()
                 def collect(x):
@@ -912,7 +926,7 @@ class Fn:
                 return term
         elif target == "usize" and ty in ("usize", "intlit"):
             return term
-        elif target == ty and target in ("cptr", "optp", "argvp", "bool", "string", "fd"):
+        elif target == ty and target in ("cptr", "optp", "argvp", "bool", "string", "fd", "cstrn"):
             return term
         raise Refuse(f"{self.name}: a {ty} is stored into a {target}")
 
@@ -1008,6 +1022,8 @@ class Fn:
                 return f"if {term} = 0 then\n{ind(kf.text)}\nelse\n{ind(kt.text)}"
             if ty == "cptr":
                 return f"if {term} = Ptr.null then\n{ind(kf.text)}\nelse\n{ind(kt.text)}"
+            if ty == "cstrn":
+                return f"if {term} = none then\n{ind(kf.text)}\nelse\n{ind(kt.text)}"
             raise Refuse(f"{self.name}: a {ty} used as a condition")
         return self.cexpr(e, kv)
 
@@ -1038,7 +1054,7 @@ class Fn:
                 return self.ret_("()")
             if s[1] is None:
                 raise Refuse(f"{self.name}: return without a value")
-            if self.ret in ("usize", "cptr"):
+            if self.ret in ("usize", "cptr", "string"):
                 def kr2(ty, term):
                     if self.ret == "cptr" and ty == "intlit" and term == "0":
                         return self.ret_("Ptr.null")
@@ -1063,6 +1079,8 @@ class Fn:
             return ctx[1].text
         if kind == "decl":
             _, ty, name, init = s
+            if self.envfn and ty == "cptr":
+                ty = "cstrn"
             if init is None:
                 if ty in ("int", "usize", "fdset") and self.proc:
                     return k.text                      # `int status;`: no value yet, the field keeps what it holds
@@ -1493,13 +1511,23 @@ def generate_proc(repo):
     if fe.vars != evars:
         raise Refuse("setEnvironmentVariable: local declarations")
     erec = ("structure ES where\n" + "".join(f"  {fld(v)} : {LEAN_TYPE[t]}\n" for v, t in evars.items()))
+    # static String Process::getEnvironmentVariable(const String& name, const String& defaultValue)
+    gvars = {"name": "string", "defaultValue": "string", "env": "penv"}
+    fg = Fn("getEnvironmentVariable", "EG", "string", gvars, {}, {}, False)
+    fg.proc = fg.envfn = True
+    gbody = parse_body(find_body(cpp, ["String", "Process", "::", "getEnvironmentVariable", "(", "const", "String", "&", "name", ",",
+                                       "const", "String", "&", "defaultValue", ")"], "Process::getEnvironmentVariable"), "getEnvironmentVariable")
+    gbody = rename_locals(gbody, ["var"], "getEnvironmentVariable")
+    gblocks = fg.function(gbody, "`static String Process::getEnvironmentVariable(const String& name, const String& defaultValue)` (POSIX branch)")
+    grec = ("structure EG where\n" + "".join(f"  {fld(v)} : {LEAN_TYPE[t]}\n" for v, t in fg.vars.items()))
     out = ["/- generated by tools/gen_args.py from src/Process.cpp and include/nstd/Process.hpp — do not edit -/",
            "import Nstd.Args.CSemProc", "", "set_option linter.unusedVariables false", "", "namespace Nstd.Args.GenP",
            "open Nstd.Args Nstd.Args.C", "", "/-- `enum Stream` -/"]
     out += [f"def {k} : Nat := {v}" for k, v in streams.items()]
     out += ["", "/-- data members of `class Process` (POSIX), the parameters and locals of the translated member functions, `errno`, the kernel ghost -/",
             rec, "\n\n".join(out_blocks), "", "/-- parameters of `setEnvironmentVariable`, the environment of the process (ghost) -/", erec,
-            "\n\n".join(eblocks), "", "end Nstd.Args.GenP", ""]
+            "\n\n".join(eblocks), "", "/-- parameters and the local of `getEnvironmentVariable`, the environment of the process (ghost) -/", grec,
+            "\n\n".join(gblocks), "", "end Nstd.Args.GenP", ""]
     return "\n".join(out)
 
 
@@ -1618,7 +1646,7 @@ def gen(ctx):
     ctx.cov["translation"] = {"ok": ok, "sha1_or_reason": msg, "files": stats(),
                               "functions": ["Arguments::Arguments", "Arguments::nextChar", "Arguments::read", "Private::splitCommandLine",
                                             "Process::Process", "Process::~Process", "isRunning", "kill", "join(uint32&)", "join()",
-                                            "close(uint)", "exit", "read(buffer, len)", "write", "setEnvironmentVariable",
+                                            "close(uint)", "exit", "read(buffer, len)", "write", "setEnvironmentVariable", "getEnvironmentVariable",
                                             "read(buffer, length, streams)", "String::length", "String::find(const char*, char)",
                                             "String::compare(const char*, const char*, usize)", "daemonize"]}
     if ok:
